@@ -139,6 +139,12 @@ C02_Class(m) ==
        L2("vperm2i128", <<RegRec("y", 256, 1, FALSE), RegRec("y", 256, 2, FALSE), W(m, 256, ""), ImHex(5)>>),
        L2("vmovdqu", <<RegRec("y", 256, 1, FALSE), W(m, 256, "")>>), L2("vmovdqu", <<W(m, 256, ""), RegRec("y", 256, 9, FALSE)>>),
        L2("vmovupd", <<RegRec("x", 128, 9, FALSE), W(m, 128, "")>>), L2("vmovupd", <<W(m, 128, ""), RegRec("x", 128, 1, FALSE)>>) }
+\* the same vector / BMI forms with the size keyword written out
+\cup { L2("movd", <<RegRec("x", 128, 1, FALSE), W(m, 32, "dword")>>), L2("movd", <<W(m, 32, "dword"), RegRec("x", 128, 9, FALSE)>>),
+       L2("movq", <<RegRec("x", 128, 1, FALSE), W(m, 64, "qword")>>), L2("movq", <<W(m, 64, "qword"), RegRec("x", 128, 9, FALSE)>>),
+       L2("paddb", <<RegRec("m", 64, 1, FALSE), W(m, 64, "qword")>>), L2("movntq", <<W(m, 64, "qword"), RegRec("m", 64, 1, FALSE)>>),
+       L2("bzhi", <<G(32, 1), W(m, 32, "dword"), G(32, 10)>>), L2("mulx", <<G(64, 1), G(64, 10), W(m, 64, "qword")>>), L2("rorx", <<G(32, 9), W(m, 32, "dword"), ImHex(5)>>),
+       L2("adcx", <<G(64, 3), W(m, 64, "qword")>>), L2("cmovne", <<G(32, 3), W(m, 32, "dword")>>), L2("imul", <<G(16, 3), W(m, 16, "word")>>) }
 \cup { L2("bzhi", <<G(w, 1), W(m, w, ""), G(w, 10)>>) : w \in {32, 64} }
 \cup { L2("mulx", <<G(w, 1), G(w, 10), W(m, w, "")>>) : w \in {32, 64} }
 \cup { L2("rorx", <<G(w, 9), W(m, w, ""), ImHex(5)>>) : w \in {32, 64} }
@@ -269,6 +275,15 @@ C04_MemForms(zz) ==
 \cup { L4("movq", <<Xr(a), W(m, 64, "")>>) : a \in Corner, m \in MemV } \cup { L4("movq", <<W(m, 64, ""), Xr(a)>>) : a \in Corner, m \in MemV }
 \cup { L4("movntq", <<W(m, 64, ""), MMr(a)>>) : a \in {0, 7}, m \in MemV }
 \cup { L4(mn, <<G(w, a), W(m, w, "")>>) : mn \in {"adcx", "adox"}, w \in {32, 64}, a \in Corner, m \in MemV }
+\* the size keyword of the memory operand written out (redundant, documented; it must change nothing)
+\cup { L4("movd", <<Xr(a), W(m, 32, "dword")>>) : a \in {0, 15}, m \in MemV } \cup { L4("movd", <<W(m, 32, "dword"), Xr(a)>>) : a \in {0, 15}, m \in MemV }
+\cup { L4("movq", <<Xr(a), W(m, 64, "qword")>>) : a \in {0, 15}, m \in MemV } \cup { L4("movq", <<W(m, 64, "qword"), Xr(a)>>) : a \in {0, 15}, m \in MemV }
+\cup { L4(mn, <<MMr(a), W(m, 64, "qword")>>) : mn \in {"paddb", "pxor", "psubq"}, a \in {0, 7}, m \in MemV }
+\cup { L4("movntq", <<W(m, 64, "qword"), MMr(a)>>) : a \in {0, 7}, m \in MemV }
+\cup { L4(mn, <<G(w, a), W(m, w, KW(w)), G(w, b)>>) : mn \in {"bzhi", "sarx"}, w \in {32, 64}, a \in {0, 15}, b \in {7, 8}, m \in MemV }
+\cup { L4("mulx", <<G(w, a), G(w, b), W(m, w, KW(w))>>) : w \in {32, 64}, a \in {0, 15}, b \in {7, 8}, m \in MemV }
+\cup { L4("rorx", <<G(w, a), W(m, w, KW(w)), ImHex(5)>>) : w \in {32, 64}, a \in {0, 15}, m \in MemV }
+\cup { L4(mn, <<G(w, a), W(m, w, KW(w))>>) : mn \in {"adcx", "adox"}, w \in {32, 64}, a \in {0, 15}, m \in MemV }
 
 (* ================================ C05 =================================== *)
 RelMn == Jccs \cup {"jmp", "call", "jrcxz", "xbegin"}
@@ -279,7 +294,8 @@ RelFar == { [neg |-> n, mag |-> Mag8(m, Z4)] : n \in BOOLEAN, m \in {<<255,127,0
 InRel8(v) == IF v.neg THEN (FitsZ(v.mag, 1) /\ v.mag[1] <= 128) ELSE (FitsZ(v.mag, 1) /\ v.mag[1] <= 127)
 RelStatus(mn, kw, v) ==
   IF mn = "jrcxz" THEN (IF ~InRel8(v) THEN "Invalid" ELSE IF kw = "long" THEN "Unconstrained" ELSE IF kw = "short" THEN "MayReject" ELSE "Supported")
-  ELSE IF kw = "short" THEN (IF mn \in {"call", "xbegin"} THEN "Unconstrained" ELSE IF InRel8(v) THEN "MayReject" ELSE "Invalid")
+  \* (`short` on call / xbegin, which have no rel8 form: an accepted line still has to be that operation with that displacement)
+  ELSE IF kw = "short" THEN (IF InRel8(v) THEN "MayReject" ELSE "Invalid")
   ELSE "Supported"
 CorpusC05(zz) ==
   { Rec("C05", RelStatus(mn, kw, v), mn, <<RelIm(kw, v.neg, v.mag, r)>>) :
@@ -287,6 +303,20 @@ CorpusC05(zz) ==
   \cup { Rec("C05", RelStatus(mn, kw, v), mn, <<RelIm(kw, v.neg, v.mag, "dec")>>) :
       mn \in {"jmp", "jne", "call", "jrcxz", "xbegin"}, kw \in {"", "short", "long"},
       v \in {x \in RelNear : x.mag[1] \in {0, 1, 126, 127, 128, 129}} \cup RelFar }
+\* displacements written as 32-bit two's complement numbers (0xffffff80 for -128): outside the range the property promises to accept, but
+\* when such a line is accepted its displacement field must hold those 32 bits, `long` must give rel32 and rel8 must not wrap
+RelTC == { Mag8(<<0,255,255,255>>, Z4), Mag8(<<16,255,255,255>>, Z4), Mag8(<<127,255,255,255>>, Z4), Mag8(<<128,255,255,255>>, Z4), Mag8(<<251,255,255,255>>, Z4),
+           Mag8(<<255,255,255,255>>, Z4), Mag8(<<0,240,255,255>>, Z4), Mag8(<<0,0,0,128>>, Z4), Mag8(<<129,255,255,255>>, Z4) }
+InRel8TC(m) == m[2] = 255 /\ m[3] = 255 /\ m[4] = 255 /\ m[1] >= 128
+RelStatusTC(mn, kw, m) ==
+  IF mn = "jrcxz" THEN (IF InRel8TC(m) /\ kw # "long" THEN "MayReject" ELSE IF InRel8TC(m) THEN "Unconstrained" ELSE "Invalid")
+  ELSE IF kw = "short" THEN (IF InRel8TC(m) THEN "MayReject" ELSE "Invalid")
+  ELSE "MayReject"
+\* displacements that do not fit 32 bits: no displacement field can equal them, so an accepted line is always judged wrong
+RelOut == { [neg |-> FALSE, mag |-> Mag8(<<0,0,0,0>>, <<1,0,0,0>>)], [neg |-> FALSE, mag |-> Mag8(<<5,0,0,0>>, <<1,0,0,0>>)], [neg |-> FALSE, mag |-> Mag8(<<137,103,69,35>>, <<1,0,0,0>>)],
+            [neg |-> TRUE, mag |-> Mag8(<<1,0,0,128>>, Z4)], [neg |-> TRUE, mag |-> Mag8(<<0,0,0,0>>, <<1,0,0,0>>)], [neg |-> TRUE, mag |-> Mag8(<<255,255,255,255>>, Z4)] }
+C05_Out(zz) == { Rec("C05", IF kw = "short" \/ mn = "jrcxz" THEN "Invalid" ELSE "MayReject", mn, <<RelIm(kw, v.neg, v.mag, r)>>) : mn \in RelMn, kw \in {"", "short", "long"}, v \in RelOut, r \in {"hex", "dec"} }
+C05_TC(zz) == { Rec("C05", RelStatusTC(mn, kw, m), mn, <<RelIm(kw, FALSE, m, r)>>) : mn \in RelMn, kw \in {"", "short", "long"}, m \in RelTC, r \in {"hex", "dec"} }
 C05_Mem(zz) == { Rec("C05", "Supported", mn, <<W(m, 64, "")>>) : mn \in {"jmp", "call"}, m \in {x \in ShapesB(64) : OKShape(x)} }
       \cup { Rec("C05", "Supported", mn, <<[W(m, 80, "") EXCEPT !.far = TRUE]>>) : mn \in {"jmp", "call"}, m \in {x \in ShapesR(64) : OKShape(x)} }
       \cup { Rec("C05", "Supported", mn, <<[W(m, 48, "dword") EXCEPT !.far = TRUE]>>) : mn \in {"jmp", "call"}, m \in {x \in ShapesR(64) : OKShape(x) /\ x.i = -1} }
@@ -400,7 +430,7 @@ StyleDims == [ case   : {"lower", "upper", "mixed"},
                comma  : {",", ", ", " , ", ",tab", ",wide"},
                brack  : {"tight", "spaced", "uneven", "wide"},
                indent : {"", "  ", "tab", "wide"},
-               trail  : {"", " ", " ; comment", ";c", "tab; x", "wide", "wide; c"},   \* "wide": more blanks than a line may hold characters
+               trail  : {"", " ", " ; comment", ";c", "tab; x", "wide", "wide; c", " ; was:tabsub rax, 0x10", " ; caf<c3><a9> ret", " ; <0c>ret"},   \* "wide": more blanks than a line may hold characters
                eol    : {"none", "lf", "crlf"},
                zeros  : {"asis", "lead", "pad16"},       \* pad16: hexadecimal padded to 16 digits, decimal to 20
                radix  : {"asis", "swap"} ]
@@ -437,7 +467,7 @@ Selected == CASE IOEnv.CORPUS = "C01" -> CorpusC01(0)
               [] IOEnv.CORPUS = "C04d" -> C04_VexX(VFull, Tri(0..15))
               [] IOEnv.CORPUS = "C04e" -> C04_VexY(VFull, Tri(0..15))
               [] IOEnv.CORPUS = "C04f" -> C04_BmiFull(0)
-              [] IOEnv.CORPUS = "C05" -> CorpusC05(0)
+              [] IOEnv.CORPUS = "C05" -> CorpusC05(0) \cup C05_TC(0) \cup C05_Out(0)
               [] IOEnv.CORPUS = "C05m" -> C05_Mem(0)
               [] IOEnv.CORPUS = "C10a" -> C10_Kinds(0..3, Kinds5)
               [] IOEnv.CORPUS = "C10b" -> C10_Kinds({4}, {"r"})
